@@ -23,6 +23,9 @@ Inductive case :=
 (* the wheel with execute callbacks held open by the controller across later operations:
    per operation, the callbacks that STARTED during it and the result *)
 | CGated (n i : Z) (hold : list Z) (ops : list gop) (obs : list (fired * res))
+(* the same with callbacks that call back into the wheel: [rc] value |-> the call made; per
+   operation also the calls the callbacks made, in order *)
+| CReact (n i : Z) (hold : list Z) (rc : list (Z * aop)) (ops : list gop) (obs : list (fired * res * list aop))
 (* free-running goroutines: stamped calls (all accepted) and ticks with their callbacks *)
 | CFree (n i : Z) (ops : list ev) (ticks : list tk)
 (* two wheels side by side: each one's history, the other's operations replaced by a no-op *)
@@ -106,6 +109,57 @@ Fixpoint cache_agrees (s : CW.cachew) (w : state) (c : cstate) (h : list (kop * 
        end
   end.
 
+
+(* ---- callbacks calling back into the wheel ---- *)
+Definition optz_eqb := opt_eqb Z.eqb.
+Definition aop_eqb (a b : aop) : bool :=
+  match a, b with
+  | ASet k v d, ASet k' v' d' => optz_eqb k k' && (v =? v') && (d =? d')
+  | AMove k d, AMove k' d' => optz_eqb k k' && (d =? d')
+  | ARemove k, ARemove k' => optz_eqb k k'
+  | ATick, ATick | ADrain, ADrain | AStop, AStop => true
+  | _, _ => false
+  end.
+
+Definition react_of (rc : list (Z * aop)) (x : Z * Z) : option aop :=
+  match find (fun p => fst p =? snd x) rc with Some p => Some (snd p) | None => None end.
+
+Fixpoint remove_one (a : aop) (l : list aop) : option (list aop) :=
+  match l with
+  | [] => None
+  | b :: l' => if aop_eqb a b then Some l'
+               else match remove_one a l' with Some r => Some (b :: r) | None => None end
+  end.
+Fixpoint perm_aops (l1 l2 : list aop) : bool :=
+  match l1 with
+  | [] => match l2 with [] => true | _ => false end
+  | a :: l1' => match remove_one a l2 with Some r => perm_aops l1' r | None => false end
+  end.
+
+Fixpoint sub_aops (l1 l2 : list aop) : bool :=
+  match l1 with
+  | [] => true
+  | a :: l1' => match remove_one a l2 with Some r => sub_aops l1' r | None => false end
+  end.
+
+Definition reacts_of (rc : list (Z * aop)) (d : fired) : list aop :=
+  flat_map (fun x => match react_of rc x with Some a => [a] | None => [] end) d.
+
+Definition fre_eqb (a b : fired * res * list aop) : bool :=
+  fr_eqb (fst a) (fst b) && list_eqb aop_eqb (snd a) (snd b).
+
+(* what the due-map fires during each operation, the calls made by its callbacks included *)
+Fixpoint fired_steps (i : Z) (c : bool * spec) (steps : list (gop * list aop)) : list (fired * res) :=
+  match steps with
+  | [] => []
+  | (o, e) :: steps' =>
+    let sub := o :: map GCall e in
+    let fs := concat (gfired (asp_step i) c sub) in
+    let c' := dwheel (gfinal (asp_step i) [] (mkD c [] []) sub) in
+    let r := match o with GCall a => snd (asp_step i c a) | GRelease _ => ROk end in
+    (fs, r) :: fired_steps i c' steps'
+  end.
+
 Definition aop_in_scope (i : Z) (o : aop) : bool :=
   match o with
   | ASet _ _ d | AMove _ d => (d <=? 0) || (i <=? d)
@@ -134,6 +188,8 @@ Fixpoint agrees (c : case) : bool :=
   | CGated n i hold ops obs =>
     (* the pointer-level model gives the order of the callbacks inside a batch *)
     list_eqb fr_eqb (grun acstep hold (mkD (acinit n i) [] []) ops) obs
+  | CReact n i hold rc ops obs =>
+    list_eqb fre_eqb (rrun acstep hold (react_of rc) (mkD (acinit n i) [] []) ops) obs
   | CBoth a b => agrees a && agrees b
   end.
 
@@ -173,6 +229,24 @@ Fixpoint prop_ok (c : case) : bool :=
       && (if released_all hold ops
           then pairs_eqb (sort_pairs (concat ds)) (sort_pairs (concat fs)) else true)
     else true
+  | CReact n i hold rc ops obs =>
+    if forallb (aop_in_scope i) (calls ops) && forallb (fun p => aop_in_scope i (snd p)) rc then
+      let steps := combine ops (map snd obs) in
+      let sp := fired_steps i (false, []) steps in
+      let ds := map (fun x => fst (fst x)) obs in
+      (length ops =? length obs)%nat
+      && list_eqb res_eqb (map snd sp) (map (fun x => snd (fst x)) obs)
+      && never_early [] [] ds (map fst sp)
+      && (if released_all hold ops
+          then pairs_eqb (sort_pairs (concat ds)) (sort_pairs (concat (map fst sp))) else true)
+      (* the calls made during an operation are those of the callbacks that ran during it *)
+      && forallb (fun oe => let '(o, (d, _, e)) := oe in
+                            let all := reacts_of rc d in
+                            if is_drain o || existsb (aop_eqb ADrain) e
+                            then sub_aops e all      (* callbacks run by Drain do not call back *)
+                            else perm_aops all e)
+                 (combine ops obs)
+    else true
   | CBoth a b => prop_ok a && prop_ok b
   end.
 
@@ -184,5 +258,7 @@ Fixpoint model_obs (c : case) : list fired :=
   | CTrace n i segs adds => canon (run (init n i) (concat (map (fun s => fst (fst s)) segs)))
   | CFree n i ops ticks => canon (run (init n i) (map snd ops))
   | CGated n i hold ops _ => canon (map fst (grun astep hold (mkD (ainit n i) [] []) ops))
+  | CReact n i hold rc ops _ =>
+    canon (map (fun x => fst (fst x)) (rrun astep hold (react_of rc) (mkD (ainit n i) [] []) ops))
   | CBoth a b => model_obs a ++ model_obs b
   end.
